@@ -1,0 +1,84 @@
+//go:build verif
+
+package kgo
+
+// Verification contracts (comments only), read by /verif/govc. Compiled only with -tags verif; no code.
+
+// ---- C38: the record iterator and the emptiness predicates over every Fetches shape ----
+// noRecords(fs): no partition of any topic of any fetch holds a record.
+//@ spec noRecords(fs []Fetch) bool = forall a in 0..len(fs) :: forall b in 0..len(fs[a].Topics) :: forall c in 0..len(fs[a].Topics[b].Partitions) :: len(fs[a].Topics[b].Partitions[c].Records) == 0
+
+// prepareNext moves the position (ti, pi, ri) of the first remaining fetch forward to the next existing record,
+// dropping exhausted fetches from the front: afterwards either no fetch remains, or the position denotes a record
+// (so Next's index expression is in range for every Fetches shape: empty fetches, topics without partitions,
+// partitions without records); the remaining fetches are a suffix of the previous ones.
+//@ func (i *FetchesRecordIter) prepareNext()
+//@   prop C38
+//@   nopanic
+//@   requires i.ti >= 0 && i.pi >= 0 && i.ri >= 0
+//@   modifies i.fetches, i.ti, i.pi, i.ri
+//@   ensures [non-negative] i.ti >= 0 && i.pi >= 0 && i.ri >= 0
+//@   ensures [at-a-record-or-done] len(i.fetches) == 0 || (i.ti < len(i.fetches[0].Topics) && i.pi < len(i.fetches[0].Topics[i.ti].Partitions) && i.ri < len(i.fetches[0].Topics[i.ti].Partitions[i.pi].Records))
+//@   ensures [remaining-is-a-suffix] exists k in 0..old(len(i.fetches))+1 :: i.fetches == old(i.fetches)[k:]
+//@   loop 0 invariant i.ti >= 0 && i.pi >= 0 && i.ri >= 0 && (exists k in 0..old(len(i.fetches))+1 :: i.fetches == old(i.fetches)[k:])
+//@   loop 1 invariant i.ti >= 0 && i.pi >= 0 && i.ri >= 0 && len(i.fetches) > 0 && (exists k in 0..old(len(i.fetches))+1 :: i.fetches == old(i.fetches)[k:])
+//@   loop 2 invariant i.ti >= 0 && i.pi >= 0 && i.ri >= 0 && len(i.fetches) > 0 && i.ti < len(i.fetches[0].Topics) && (exists k in 0..old(len(i.fetches))+1 :: i.fetches == old(i.fetches)[k:])
+
+// Next returns the record at the current position and advances; it never indexes out of range when the iterator
+// is at a record (which prepareNext establishes and Done() == false guarantees).
+//@ func (i *FetchesRecordIter) Next() (r *Record)
+//@   prop C38
+//@   nopanic
+//@   requires len(i.fetches) > 0 && i.ti >= 0 && i.pi >= 0 && i.ri >= 0
+//@   requires i.ti < len(i.fetches[0].Topics) && i.pi < len(i.fetches[0].Topics[i.ti].Partitions) && i.ri < len(i.fetches[0].Topics[i.ti].Partitions[i.pi].Records)
+//@   modifies i.fetches, i.ti, i.pi, i.ri
+//@   ensures [returns-the-current-record] r == old(i.fetches[0].Topics[i.ti].Partitions[i.pi].Records[i.ri])
+//@   ensures [at-a-record-or-done] len(i.fetches) == 0 || (i.ti >= 0 && i.pi >= 0 && i.ri >= 0 && i.ti < len(i.fetches[0].Topics) && i.pi < len(i.fetches[0].Topics[i.ti].Partitions) && i.ri < len(i.fetches[0].Topics[i.ti].Partitions[i.pi].Records))
+
+//@ func (i *FetchesRecordIter) Done() (d bool)
+//@   prop C38
+//@   nopanic
+//@   pure
+//@   ensures d == (len(i.fetches) == 0)
+
+// RecordIter starts at the first record: the fresh iterator is done exactly when there is no record at all.
+//@ func (fs Fetches) RecordIter() (it *FetchesRecordIter)
+//@   prop C38
+//@   nopanic
+//@   ensures [starts-at-a-record-or-done] len(it.fetches) == 0 || (it.ti >= 0 && it.pi >= 0 && it.ri >= 0 && it.ti < len(it.fetches[0].Topics) && it.pi < len(it.fetches[0].Topics[it.ti].Partitions) && it.ri < len(it.fetches[0].Topics[it.ti].Partitions[it.pi].Records))
+
+// Empty is true exactly when no partition holds a record.
+//@ func (fs Fetches) Empty() (e bool)
+//@   prop C38
+//@   nopanic
+//@   pure
+//@   ensures [empty-iff-no-records] e <==> noRecords(fs)
+//@   loop 0 invariant forall a in 0..rangeindex+1 :: forall b in 0..len(fs[a].Topics) :: forall c in 0..len(fs[a].Topics[b].Partitions) :: len(fs[a].Topics[b].Partitions[c].Records) == 0
+//@   loop 1 invariant forall a in 0..i :: forall b in 0..len(fs[a].Topics) :: forall c in 0..len(fs[a].Topics[b].Partitions) :: len(fs[a].Topics[b].Partitions[c].Records) == 0
+//@   loop 1 invariant 0 <= i && i < len(fs) && (forall b in 0..rangeindex+1 :: forall c in 0..len(fs[i].Topics[b].Partitions) :: len(fs[i].Topics[b].Partitions[c].Records) == 0)
+//@   loop 2 invariant forall a in 0..i :: forall b in 0..len(fs[a].Topics) :: forall c in 0..len(fs[a].Topics[b].Partitions) :: len(fs[a].Topics[b].Partitions[c].Records) == 0
+//@   loop 2 invariant 0 <= i && i < len(fs) && 0 <= j && j < len(fs[i].Topics) && (forall b in 0..j :: forall c in 0..len(fs[i].Topics[b].Partitions) :: len(fs[i].Topics[b].Partitions[c].Records) == 0)
+//@   loop 2 invariant forall c in 0..rangeindex+1 :: len(fs[i].Topics[j].Partitions[c].Records) == 0
+
+// EachError hands the callback exactly the topic, partition number and error of a partition, and only of
+// partitions that carry an error; EachPartition hands it each partition's own data under its topic's name.
+//   (no `nopanic` for EachError: it re-reads ft.Partitions through a pointer after each callback, so a callback
+//   that shrinks the fetch it is iterating over could make the next index out of range; EachPartition iterates
+//   over copies and is panic-free whatever the callback does)
+//@ func (fs Fetches) EachError(fn func(string, int32, error))
+//@   prop C38
+//@   site call fn#0 assert [only-errored-partitions-with-their-own-data] fp.Err != nil && arg0 == ft.Topic && arg1 == fp.Partition && arg2 == fp.Err
+//@ func (fs Fetches) EachPartition(fn func(FetchTopicPartition))
+//@   prop C38
+//@   nopanic
+//@   site call fn#0 assert [each-partition-under-its-topic] arg0.Topic == topic.Topic && arg0.FetchPartition.Partition == topic.Partitions[i].Partition && arg0.FetchPartition.Records == topic.Partitions[i].Records && arg0.FetchPartition.Err == topic.Partitions[i].Err
+
+// a fetch is kept exactly when some partition has an error or a record
+//@ func (f Fetch) hasErrorsOrRecords() (r bool)
+//@   prop C38
+//@   nopanic
+//@   pure
+//@   ensures r <==> (exists a in 0..len(f.Topics) :: exists b in 0..len(f.Topics[a].Partitions) :: (f.Topics[a].Partitions[b].Err != nil || len(f.Topics[a].Partitions[b].Records) > 0))
+//@   loop 0 invariant forall a in 0..rangeindex+1 :: forall b in 0..len(f.Topics[a].Partitions) :: (f.Topics[a].Partitions[b].Err == nil && len(f.Topics[a].Partitions[b].Records) == 0)
+//@   loop 1 invariant 0 <= i && i < len(f.Topics) && (forall a in 0..i :: forall b in 0..len(f.Topics[a].Partitions) :: (f.Topics[a].Partitions[b].Err == nil && len(f.Topics[a].Partitions[b].Records) == 0))
+//@   loop 1 invariant forall b in 0..rangeindex+1 :: (f.Topics[i].Partitions[b].Err == nil && len(f.Topics[i].Partitions[b].Records) == 0)
